@@ -21,6 +21,42 @@ PROPS = {
         "for all real poses/measurements/offsets. Translator validated against the real edge objects every run.",
         level_note="Trusted: Lean kernel, Mathlib analysis, py2lean translator (validated at Float every run). Real arithmetic; float rounding of Jacobian entries not covered.",
     ),
+    "C09": dict(
+        modules=["GraphSlam.Props.C09"],
+        theorem_files=["GraphSlam/Props/C09/*.lean", "GraphSlam/Props/C10/SE3Boxplus.lean"],
+        scan_files=["GraphSlam/Real/*.lean", "GraphSlam/Core/*.lean"],
+        corr=[("harness.entry", "layer_a", dict(only=["Pose", "Util"], quick=25, thorough=400))],
+        search=("search.entry", "c09"),
+        replay=("search.entry", "replay_generic"),
+        rule="translator validation of every generated pose definition (constructors, copy, to_matrix, inverse, (+) in its three dispatch branches, (-), "
+        "normalize) at Float vs the real methods on stratified inputs; non-trivial = definition has arguments",
+        assumptions=["real arithmetic (no rounding)", "SE(3): unit-quaternion operands where displayed (the code's 1-2(y^2+z^2) rotation form is a rotation only on the unit sphere)",
+                     "SE(2): InRange only where a bare operand appears as one side of an equation"],
+        technique="Lean 4 proof: ring / linear_combination (sympy-found, kernel-checked cofactors) on definitions regenerated from the source; wrap algebra for SE(2)",
+        level_text="Group laws for all four pose types as theorems about the regenerated definitions: (+) = product of homogeneous matrices (code's to_matrix; rotation block proved orthogonal), "
+        "a(-)b = b^-1(+)a, two-sided inverse and identity, associativity, pose(+)point = matrix action (and compatible with composition), "
+        "p[+]delta = p(+)expmap(delta) incl. the documented |dv|>1 fallback; SE(2) equalities exact including the wrapped angle.",
+        level_note="Trusted: Lean kernel, Mathlib, py2lean translator (validated at Float every run). __iadd__ (base_pose.py:155-169, `return self + other`) is not translated; its delegation is exercised by the search oracle only.",
+    ),
+    "C11": dict(
+        modules=["GraphSlam.Props.C11"],
+        theorem_files=["GraphSlam/Props/C11/*.lean", "GraphSlam/Props/C09/SE2.lean", "GraphSlam/Real/Wrap.lean"],
+        scan_files=["GraphSlam/Real/*.lean", "GraphSlam/Core/*.lean", "GraphSlam/Props/C09/SE3.lean"],
+        corr=[("harness.entry", "layer_a", dict(only=["Pose", "Util"], quick=25, thorough=400))],
+        search=("search.entry", "c11"),
+        always_search=True,
+        replay=("search.entry", "replay_generic"),
+        rule="translator validation as C09; plus (exploration, every run) linear operation histories on the real objects: |q|-1 within 2e-15*(steps+10), angle in [-pi,pi], "
+        "wrap congruent to the 50-digit reference within 4 ulp, normalize() unit / w>=0 / same rotation",
+        assumptions=["real arithmetic for the theorems; 'up to accumulated rounding' is measured on the real code every run, not proved"],
+        proved_level="partial",
+        unproved=["float rounding: accumulated norm drift and the closed upper end (+pi) of the float wrap are measured by the chain exploration, not proved"],
+        technique="Lean 4 proof: invariant by induction over an inductive type of operation histories (Reach), wrap range/congruence lemmas; float drift measured",
+        level_text="Proved for histories of any length: every PoseSE2 constructor/(+)/(-)/inverse/[+]/copy result has its angle in [-pi,pi) and congruent mod 2pi to the exact angle; "
+        "the quaternion norm is multiplicative under (+),(-), preserved by inverse/copy, box-plus returns a unit quaternion for every increment (both branches), hence any Reach-able pose and any vertex after n updates is unit; "
+        "normalize() gives unit norm, w>=0 and the same rotation. PARTIAL: exact arithmetic only.",
+        level_note="Partial: rounding is outside the theorems; measured by operation chains on the real code each run (quick 2 types x 4 chains x 2500 ops).",
+    ),
     "C10": dict(
         modules=["GraphSlam.Props.C10"],
         theorem_files=["GraphSlam/Props/C10/*.lean"] + GEN_POSE,
